@@ -73,7 +73,34 @@ let strip_key k =
 let fx =
   let e = try Sys.getenv "C07_FIXES" with Not_found -> "" in
   let has w = List.mem w (String.split_on_char ',' e) in
-  { fx_pop = has "pop"; fx_nullref = has "nullref" }
+  { fx_pop = has "pop"; fx_nullref = has "nullref"; fx_placeholder_children = has "kids" }
+
+(* T:<u|c>:<name>:<url>:<ref> on the origin model object: importSource()->setUrl(url) (every entity that shares the
+   ImportSource sees it) and setImportReference(ref) *)
+let retarget kind nm url rf (m : model) : model =
+  let sid_of =
+    let rec in_comps l = match l with
+      | [] -> None
+      | Comp (n, imp, _, kids) :: r ->
+        (match imp with
+         | Some ((sid, _), _) when kind = "c" && n = nm -> Some sid
+         | _ -> (match in_comps kids with Some s -> Some s | None -> in_comps r)) in
+    if kind = "u" then
+      List.fold_left (fun acc u -> match acc, u with
+          | None, UImp (n, sid, _, _) when n = nm -> Some sid
+          | _ -> acc) None m.m_units
+    else in_comps m.m_comps in
+  match sid_of with
+  | None -> m
+  | Some sid ->
+    let fu u = match u with
+      | UImp (n, s, u0, r0) when s = sid -> UImp (n, s, url, (if kind = "u" && n = nm then rf else r0))
+      | _ -> u in
+    let rec fc c = match c with
+      | Comp (n, Some ((s, u0), r0), used, kids) when s = sid ->
+        Comp (n, Some ((s, url), (if kind = "c" && n = nm then rf else r0)), used, List.map fc kids)
+      | Comp (n, imp, used, kids) -> Comp (n, imp, used, List.map fc kids) in
+    { m with m_units = List.map fu m.m_units; m_comps = List.map fc m.m_comps }
 
 let hexdecode h =
   let n = String.length h / 2 in
@@ -139,6 +166,13 @@ let () =
                fs := List.filter (fun (k', _) -> not (List.mem k' !aliases)) !fs; aliases := []
              | ["M"; _] -> ()
              | ["N"; s] -> st := empty_state; strict := (s = "1")
+             (* a new importer while the previous one (and its library models) stays alive: for the code as it is
+                that is a fresh importer (resolveImports first clears every link of the model) *)
+             | ["N2"; s] -> st := empty_state; strict := (s = "1")
+             | ["T"; kind; nm; url; rf] ->
+               (match !origin with
+                | Some m -> origin := Some (retarget kind (explode nm) (name url) (name rf) m)
+                | None -> ())
              | ["P"; f] ->
                st := clear_origin_links !st;
                (match List.assoc_opt (mk_key (explode f)) !fs with
